@@ -230,3 +230,12 @@ CHECKS["C21"] = dict(
     level_text="Generated arrival / completion / cancel scripts against the real worker queue with an instrumented executor, and against real instances with held executions; limits checked at every quiescent point, completion at the end.",
     level_note="Trusts synctest quiescence; executions are counted by the harness's own gates, independently of the node's reports.",
     technique="rapid operation-sequence testing of the worker queue and of real instances in a synctest bubble", design_ref="DESIGN.md §5 C21")
+
+CHECKS["C12"] = dict(
+    pkg="props/c12", level="exploration", gomaxprocs=2, crash_class=True,
+    rule="streams of 1-3 frames; each frame is a generated well-formed message (every shape of the v2 schema, as in C11) that is left alone, or mutated at the IPLD level after decoding its CBOR body into a generic tree (1-3 of: delete a map / list entry, replace a subtree by a generated value, shorten / lengthen / empty a byte string - request ids, CID prefixes, block data -, set a string to a keyword or junk, set an int to a boundary value or an unknown enum, duplicate a list element, wrap a value in a list) and re-encoded, or mutated at the byte level (bit flip, truncation, inserted byte, dropped byte, forged length prefix incl. zero and > 2^33). The stream is cut into frames by the harness's own varint framing; the first frame that is incomplete or that the decoder refuses is 'the malformed message'. The stream is fed through a fake libp2p stream to the REAL libp2pGraphSyncNetwork.handleNewStream (captured from SetDelegate through a fake host). Oracle: the handler returns, no panic escapes; the frames before the malformed one are delivered in order and equal what they decode to; a malformed frame => exactly one ReceiveError, the stream is Reset, nothing delivered afterwards; no malformed frame => no error, no reset; every delivered block's CID equals prefix.Sum(its bytes) recomputed by the harness; every delivered request / response id is 16 bytes; a second, honest stream is then served. One case in three additionally delivers everything that decoded to a live default-configured node (both managers): the process survives (journaled), PeerState answers, and an honest request issued afterwards completes. Non-trivial: the stream was tampered with and got past CBOR decoding (schema-level reject, or accepted). Thorough tier adds native coverage-guided campaigns (go test -fuzz) on the same stream oracle and on the bare decoder, seeded with generated encodings and hostile constants.",
+    assumptions=["libp2p itself is replaced by a fake host / stream: 'the stream is reset' is observed as the Reset call", "'decodes' is judged with the decoder under test; the delivered-message invariants (CID = hash of bytes, 16-byte ids) are recomputed independently"],
+    quick=dict(shards=2, timeout=400), thorough=dict(shards=16, timeout=3000, fuzz=[("FuzzStream", 300), ("FuzzDecode", 120)]),
+    level_text="Structure-aware mutation testing of the real stream handler and a live node, plus (thorough) native coverage-guided fuzzing of the same oracle. Three defects found and fixed (null extension payload and missing selector crash the node; truncated message taken for a clean end of stream).",
+    level_note="No libp2p transport is involved. Go's native fuzzer cannot be pinned to a seed; a saved crasher is the reproducible unit.",
+    technique="rapid structure-aware mutation testing + native go fuzzing with a stream-handler oracle", design_ref="DESIGN.md §6 C12")
